@@ -21,6 +21,7 @@ import (
 	"github.com/youchainhq/go-youchain/staking"
 
 	"verifharness/cmd/c07/chainkit"
+	"verifharness/internal/vh"
 )
 
 const nBlsKeys = 8
@@ -97,6 +98,56 @@ type scenario struct {
 	setLines []string                    // SET lines (look-back change points) for the model
 	sets     map[uint64][]common.Address // validator order per header number
 	setKeys  map[uint64][]string
+}
+
+// disagreeError: a block built by the real builder is not accepted by the nodes that import it (its own included), or
+// building it panics.  That is the property's "accepted by block builder and block validator alike" failing, not a
+// harness problem; callers turn it into an oracle failure.
+type disagreeError struct{ what string }
+
+func (e *disagreeError) Error() string { return e.what }
+
+const scenarioTries = 20
+
+// scenarioOrFail builds the scenario chain; builder/importer disagreement while building it is reported as an oracle
+// failure with a replay that re-runs the set-up (SCENARIO <blocks> <tiny>), and the build is retried (disagreements of
+// this kind come from Go map iteration order and do not happen every time).
+func scenarioOrFail(c *vh.Ctx, blocks int, tiny bool) (*scenario, error) {
+	reported := false
+	for try := 0; try < scenarioTries; try++ {
+		sc, err := newScenario(blocks, tiny)
+		if err == nil {
+			return sc, nil
+		}
+		de, ok := err.(*disagreeError)
+		if !ok {
+			return nil, err
+		}
+		if !reported && c != nil {
+			reported = true
+			reportScenarioDisagreement(c, blocks, tiny, de.what)
+		}
+	}
+	return nil, nil // every try disagreed: already reported, no scenario
+}
+
+var scenarioReports = 0
+
+func reportScenarioDisagreement(c *vh.Ctx, blocks int, tiny bool, what string) {
+	scenarioReports++
+	c.Res.Dist("failure:scenario:builder-importer-disagree")
+	if scenarioReports > 2 {
+		return
+	}
+	t := 0
+	if tiny {
+		t = 1
+	}
+	rp := vh.WriteReplay(c.ReplayDir, "C05", fmt.Sprintf("scenario-disagree-%d-%d", scenarioReports, c.Seed), c.Seed,
+		[]string{"builder and importer disagree on a block of the scenario chain (period-end penalties run takePenalty too)",
+			fmt.Sprintf("nondeterministic by nature (Go map order): `replay` re-builds the scenario up to %d times", scenarioTries), what},
+		[]string{fmt.Sprintf("SCENARIO %d %d", blocks, t)})
+	c.Res.Fail("oracle", "", "builder/importer disagree on a block carrying a penalty: "+what, rp)
 }
 
 func you(n int64) *big.Int { return new(big.Int).Mul(big.NewInt(n), big.NewInt(params.YOU)) }
@@ -214,10 +265,12 @@ func newScenario(blocks int, tiny bool) (*scenario, error) {
 			return nil, err
 		}
 		if bl.Panic != "" {
-			return nil, fmt.Errorf("scenario block %d: EndBlock panic %s", b, bl.Panic)
+			k.Stop()
+			return nil, &disagreeError{fmt.Sprintf("building scenario block %d: the end-block hook panics: %s", b, bl.Panic)}
 		}
 		if err := k.Import(bl.Block); err != nil {
-			return nil, err
+			k.Stop()
+			return nil, &disagreeError{fmt.Sprintf("scenario block %d: %v", b, err)}
 		}
 		if b == 2 {
 			s.vals = append(s.vals, nv)
